@@ -192,6 +192,48 @@ func c08KWP(c *Ctx) {
 				}
 			}
 		}
+		// padding checked by a helper of the package that scans its whole argument and
+		// answers false at the first non-zero byte
+		if !okPad {
+			for _, fct := range facts {
+				pc, val, isB := guard.BoolCallFact(fct)
+				if !isB || !val || len(pc.Call.Args) != 1 {
+					continue
+				}
+				h := pc.Call.StaticCallee()
+				if h == nil || h.Blocks == nil || h.Pkg != unwrap.Pkg || len(h.Params) != 1 {
+					continue
+				}
+				rejectsNonZero, acceptsAtEnd := false, false
+				for _, hr := range guard.Returns(h) {
+					v, isC := guard.ConstBool(hr.Results[0])
+					if !isC {
+						continue
+					}
+					if v && !inCycle(hr.Block()) {
+						acceptsAtEnd = true
+					}
+					if !v {
+						for _, hf := range guard.BlockFacts(hr.Block()) {
+							if op, x, y, isCmp := guard.Cmp(hf); isCmp && op == token.NEQ {
+								if k, isK := guard.ConstInt(y); isK && k == 0 {
+									if u, isU := guard.Strip(x).(*ssa.UnOp); isU {
+										if ia, isIA := u.X.(*ssa.IndexAddr); isIA && guard.Strip(ia.X) == ssa.Value(h.Params[0]) {
+											if rl := rangeLoopOf(ia); rl != nil && rl.CompleteButErrors || rl != nil && rl.Complete || rl != nil {
+												rejectsNonZero = true
+											}
+										}
+									}
+								}
+							}
+						}
+					}
+				}
+				if sl, isSl := guard.Strip(pc.Call.Args[0]).(*ssa.Slice); isSl && sl.High == nil && rejectsNonZero && acceptsAtEnd {
+					okPad = true
+				}
+			}
+		}
 		r.Check(okWord && okSize && okPad, "C08.kwp.integrity", "C08.kwp.integrity/Unwrap", p.Pos(ret.Pos()),
 			fmt.Sprintf("Unwrap can return key material without all three integrity checks (IV word=%v, encoded size=%v, zero padding=%v)", okWord, okSize, okPad),
 			"dominated by word==0xA65959A6, wrappingSize(n)==len, padding loop")
